@@ -3,6 +3,7 @@ package props
 import (
 	"fmt"
 	"runtime/debug"
+	"sort"
 	"strings"
 	"unicode/utf8"
 
@@ -132,6 +133,21 @@ func (p *c04) ExtraEvidence(tier string, counters map[string]int64) map[string]a
 		"functions_registered": len(gen.FunctionNames()),
 		"pool_size":            len(gen.ValuePool()),
 	}
+	// functions and tests that were called directly but only ever answered with an error value: their bodies past the
+	// argument checks were not exercised by direct calls (templates may still reach them)
+	never := []string{}
+	nCalled := 0
+	for k := range counters {
+		if strings.HasPrefix(k, "called.") {
+			nCalled++
+			if counters["returned_value."+strings.TrimPrefix(k, "called.")] == 0 {
+				never = append(never, strings.TrimPrefix(k, "called."))
+			}
+		}
+	}
+	sort.Strings(never)
+	m["functions_called_directly"] = nCalled
+	m["functions_never_returning_a_value_in_direct_calls"] = never
 	if tier == "thorough" {
 		m["exhaustive_subspace"] = "every registered function/test x arity<=3 x 24-value pool (exhaustive: true applies to this sub-space only)"
 	}
@@ -319,6 +335,10 @@ func (cr *c04run) direct(f *types.XFunction, args []types.XValue) {
 		if !types.IsXError(v) || !strings.Contains(v.(*types.XError).Error(), "argument(s), got") {
 			cr.res.Count("reached_body", 1)
 		}
+		cr.res.Count("called."+name, 1)
+		if !types.IsXError(v) {
+			cr.res.Count("returned_value."+name, 1)
+		}
 		cr.use(v)
 	})
 }
@@ -393,6 +413,17 @@ func (p *c04) Run(c fw.Case) fw.Result {
 				args := make([]types.XValue, sp.arity)
 				for k := range args {
 					args[k] = fw.Pick(r, pool)
+				}
+				// arguments that only mean something together are generated together for half the calls
+				if (sp.fn == "has_intent" || sp.fn == "has_top_intent") && sp.arity == 3 && i%2 == 0 {
+					args[0] = gen.ClassificationResult(r)
+					if r.Chance(0.9) {
+						args[1] = types.NewXText(fw.Pick(r, gen.ClassificationNames))
+					}
+					if r.Chance(0.9) {
+						args[2] = fw.Pick(r, []types.XValue{pool[8], pool[9], pool[10], types.RequireXNumberFromString("0.4"), types.RequireXNumberFromString("0.9")})
+					}
+					cr.res.Count("calls.direct_cogenerated", 1)
 				}
 				cr.direct(f, args)
 			}
